@@ -19,11 +19,16 @@ type vfHost struct {
 	host.Host
 	id          peer.ID
 	connectFail map[peer.ID]bool
+	hangs       map[peer.ID]bool // the dial never completes: it ends with its context
 	slow        bool
 }
 
 func (h *vfHost) ID() peer.ID { return h.id }
 func (h *vfHost) Connect(ctx context.Context, pi peer.AddrInfo) error {
+	if h.hangs[pi.ID] {
+		<-ctx.Done()
+		return ctx.Err()
+	}
 	if h.slow {
 		vfAdvance(time.Millisecond) // dialing takes (virtual) time
 	}
@@ -49,7 +54,7 @@ func VfRefresh() {
 	N := vfParam("N")
 	vfHashBits(vfParam("W"))
 	self := peer.ID(vfHashInput("self", nil, 8))
-	h := &vfHost{id: self, connectFail: map[peer.ID]bool{}}
+	h := &vfHost{id: self, connectFail: map[peer.ID]bool{}, hangs: map[peer.ID]bool{}}
 	rt, err := kbucket.NewRoutingTable(4, kbucket.ConvertPeerID(self), time.Minute, vfMetrics{}, time.Hour, nil)
 	vfAssert(err == nil, "refresh/setup")
 	grace := 10 * time.Minute
@@ -70,6 +75,9 @@ func VfRefresh() {
 		}
 		h.connectFail[ids[i]] = vfBool("member.connectFails")
 		pingFail[ids[i]] = vfBool("member.pingFails")
+		if vfParam("HANG") == 1 && stale[i] && !h.connectFail[ids[i]] {
+			h.hangs[ids[i]] = vfBool("member.dialHangsUntilTheProbeTimesOut")
+		}
 	}
 	h.slow = vfBool("probesTakeTime")
 	pinged := map[peer.ID]int{}
@@ -125,7 +133,7 @@ func VfRefresh() {
 		for i, p := range ids {
 			member := rt.Find(p) != ""
 			probed := stale[i]
-			failed := h.connectFail[p] || pingFail[p]
+			failed := h.connectFail[p] || pingFail[p] || h.hangs[p]
 			if probed && failed {
 				vfAssert(!member, "refresh/stale-member-that-fails-the-liveness-probe-is-removed")
 			} else {
